@@ -23,11 +23,22 @@ pub struct CaseOut {
     pub coq: String,
 }
 
-fn exec_case<S, SP>(scn: Scenario<S, SP>, twin: Scenario<S, SP>, mut rrt_twin: Scenario<S, SP>, free: bool, id: &str) -> CaseOut
+fn exec_case<S, SP>(mut scn: Scenario<S, SP>, mut twin: Scenario<S, SP>, mut rrt_twin: Scenario<S, SP>, free: bool, id: &str) -> CaseOut
 where
     S: State + Clone + Key,
     SP: StateSpace<StateType = S> + 'static,
 {
+    let tmo = match scn.timeout_ms {
+        Some(ms) => {
+            scn.params.build_secs = ms as f64 / 1000.0;
+            twin.params.build_secs = scn.params.build_secs;
+            // real-clock runs are not repeatable: no twin comparisons
+            twin.params.seed = None;
+            scn.params.seed = None;
+            Duration::from_millis(ms)
+        }
+        None => Duration::from_secs(3600),
+    };
     if std::env::var("OXH_TRACE").is_ok() {
         eprintln!("TRACE {id} params={:?} script={:?} world={}", scn.params, scn.script, scn.desc);
     }
@@ -40,7 +51,7 @@ where
             &twin.problems,
             &twin.checkers,
             &twin.script,
-            Duration::from_secs(3600),
+            tmo,
         );
         Some(
             outs2
@@ -69,7 +80,7 @@ where
             &rrt_twin.problems,
             &rrt_twin.checkers,
             &rrt_twin.script,
-            Duration::from_secs(3600),
+            tmo,
         );
         Some(o3.into_iter().map(|o| o.path).collect())
     } else {
@@ -82,7 +93,7 @@ where
         &scn.problems,
         &scn.checkers,
         &scn.script,
-        Duration::from_secs(3600),
+        tmo,
     );
     let mut findings = oracle::check_all(&scn, &outs);
     if let Some(tk) = &twin_keys {
@@ -221,6 +232,7 @@ where
         ("responses", J::Arr(outs.iter().map(|o| resp_json(&o.resp)).collect())),
         ("kinds", J::Arr(kinds.iter().map(|k| J::Str(k.clone())).collect())),
         ("ticks", J::Arr(outs.iter().map(|o| J::Int(o.ticks as i128)).collect())),
+        ("wall_ms", J::Arr(outs.iter().map(|o| J::Num(o.wall_ns as f64 / 1e6)).collect())),
         ("final_snapshot", outs.last().map(|o| oracle::snap_json(&o.snap)).unwrap_or(J::Null)),
         ("max_nodes", J::Int(max_nodes as i128)),
         ("rejected_states", J::Int(n_rejected as i128)),
@@ -258,6 +270,7 @@ fn opts_of_flags(flags: &str) -> GenOpts {
         misuse: flags.contains('m'),
         per_iteration: flags.contains('i'),
         free: flags.contains('o'),
+        timing: flags.contains('t'),
     }
 }
 
@@ -324,6 +337,9 @@ fn planners(args: &[String]) {
     }
     if args.iter().any(|a| a == "--free") {
         flags.push('o');
+    }
+    if args.iter().any(|a| a == "--timing") {
+        flags.push('t');
     }
     match arg(args, "--only-planner") {
         Some("rrt") => flags.push('R'),
